@@ -556,10 +556,10 @@ def check(run, prog):
     rule_pop_counts(run, prog)
 
 
-def rule_position_caches(run, prog):
+def rule_position_caches(run, prog, rid="R-12.6"):
     from ..cfg import cfg_of
     from .c05 import _cfg_node_of_expr
-    run.rule("R-12.6", "cache coherence: the only mutable state of the Lexer is the cursor (__pos, __line, __line_pos); any "
+    run.rule(rid, "cache coherence: the only mutable state of the Lexer is the cursor (__pos, __line, __line_pos); any "
              "other attribute written outside __init__ caches something derived from the cursor, and must be reset on "
              "every path between a write of __pos and the function's normal exits -- a splice that moves the cursor "
              "directly would otherwise leave a stale character in front of the sub-parsers", floor=1)
@@ -581,7 +581,7 @@ def rule_position_caches(run, prog):
                             derived.setdefault(x.attr, []).append((fn, n))
     run.require(len(writes) >= 3, f"only {len(writes)} writes of the cursor position found in Lexer (floor 3)")
     if not derived:
-        run.ob("R-12.6", f"{lx.key}::state", True, "", lx.node, cursor_writes=len(writes), derived_attributes=[])
+        run.ob(rid, f"{lx.key}::state", True, "", lx.node, cursor_writes=len(writes), derived_attributes=[])
         return
     for attr, sites in sorted(derived.items()):
         for fn, w in writes:
@@ -592,6 +592,6 @@ def rule_position_caches(run, prog):
             resets.discard(None)
             wid = _cfg_node_of_expr(g, w)
             stale = wid is not None and wid not in resets and g.can_reach(wid, g.exit, avoid=resets, follow_exc=False)
-            run.ob("R-12.6", f"{fn.key}::coherent[{attr}@{text(w, 40)}]", not stale,
+            run.ob(rid, f"{fn.key}::coherent[{attr}@{text(w, 40)}]", not stale,
                    f"self.{attr} (state derived from the cursor) is not reset on every path from `{text(w, 50)}` to the end of "
                    f"{fn.name}: after this cursor move the next reader sees a stale value", w)
